@@ -946,6 +946,7 @@ def scenario_campaign(ch, tr, st):
     jperm_on = ch.flip(1, 2, "jperm_on")
     interleave = ch.flip(2, 3, "interleave")
     persistent_top = ch.flip(1, 2, "persistent_top")
+    shared_case_names = ch.flip(1, 3, "shared_case_names")
     h = [0.01, 0.002, 0.05][ch.draw(3, "h")]
     sr = 1.0 / h
     srsfrq = np.array([sr / 40, sr / 15, sr / 8, sr / 5])
@@ -1013,6 +1014,9 @@ def scenario_campaign(ch, tr, st):
         ev.cats = cfgs[ev.cfg]
         ev.DR = DRs[ev.cfg]
         ev.n = 1 + ch.weighted([2, 3, 3, 2, 1], "ncases")
+        # load cases usually carry the same names in every event ("case 1", ...): only the
+        # event name tells them apart in envelopes
+        ev.cprefix = "" if shared_case_names else ev.name
         if DEEP[0]:
             ev.n = 4 + ch.draw(6, "ncases_deep")
         ev.jorder = ch.perm(ev.n, "jperm") if jperm_on else list(range(ev.n))
@@ -1304,7 +1308,7 @@ def op_recover_psd(M, ch, tr, st, rng, mod, ev):
     mod = ev.mod
     k = len(ev.done)
     j = ev.jorder[k]
-    case = f"{ev.name}c{k}"
+    case = f"{ev.cprefix}c{k}"
     # solvepsd may run ahead of psd_data_recovery by any number of cases (the temporary
     # per-case PSD store holds them until their case is recovered): textbook pairs, all
     # systems solved first, or a mixed schedule such as S0 R0 S1 S2 R1 R2.  Only with j in
@@ -1318,7 +1322,7 @@ def op_recover_psd(M, ch, tr, st, rng, mod, ev):
         else:
             target = min(ev.n, k + 1 + [0, 0, 1, 2, 99][ch.draw(5, "psd_solve_ahead")])
     for kk in range(ev.nsolved, target):
-        _psd_solve(M, ch, tr, st, rng, ev, f"{ev.name}c{kk}")
+        _psd_solve(M, ch, tr, st, rng, ev, f"{ev.cprefix}c{kk}")
     if target > k + 1:
         st.fault("psd_solved_ahead")
     ev.nsolved = max(ev.nsolved, target)
@@ -1338,8 +1342,16 @@ def op_recover(M, ch, tr, st, rng, mod, ev, h, nan_on, ties_on):
     mod = ev.mod
     k = len(ev.done)
     j = ev.jorder[k]
-    case = f"{ev.name}c{k}"
+    case = f"{ev.cprefix}c{k}"
     sol, x, quant, nanned = _draw_sol(ch, rng, mod, ev, ev.h, nan_on, ties_on)
+    prev = getattr(ev, "last_sol", None)
+    if prev is not None and ties_on and ch.flip(1, 8, "case_repeats_previous"):
+        # the same solution handed in again under another case name: every row ties exactly
+        for nm in ("a", "v", "d", "pg"):
+            if hasattr(sol, nm) and getattr(prev, nm).shape == getattr(sol, nm).shape:
+                getattr(sol, nm)[...] = getattr(prev, nm)
+        st.fault("case_repeats_previous")
+    ev.last_sol = copy.deepcopy(sol)
     if nanned is not None:
         st.fault("nan_cells")
 
@@ -2020,5 +2032,5 @@ ASSUMPTIONS = [
 EXPECTED_FAULTS = [
     "psd_domain", "clock_jump_backwards", "clock_jump_forwards", "external_maxmin", "merge_rename", "mixed_abscissa", "model_varies_between_events", "zero_force_psd_row", "nan_cells", "ties", "ties_quantised", "one_column_ext", "label_mismatch", "j_out_of_order", "interleaved_events", "view_drfunc",
     "cache_reuse", "cache_reuse_repeat_uf", "stale_extreme_rebuild", "shared_DR_Event", "envelope_multi_event", "split_merge", "calc_ext",
-    "deep_run", "rf_redesignated_same_matrices", "integer_table", "inf_cells", "mixed_depth_tree", "merge_of_merged_results", "force_trimming", "psd_all_solved_before_recovery", "psd_solved_ahead", "checkpoint_saved", "crash_restart_from_checkpoint", "crash_restart_from_scratch", "crash_lost_cases_redone", "summary_copy", "summary_copy_stripped",
+    "deep_run", "case_repeats_previous", "rf_redesignated_same_matrices", "integer_table", "inf_cells", "mixed_depth_tree", "merge_of_merged_results", "force_trimming", "psd_all_solved_before_recovery", "psd_solved_ahead", "checkpoint_saved", "crash_restart_from_checkpoint", "crash_restart_from_scratch", "crash_lost_cases_redone", "summary_copy", "summary_copy_stripped",
 ]
